@@ -129,6 +129,20 @@ class Exec(ExprMixin, CallMixin):
         run.pc.append(c if choice else z3.Not(c))
         return choice
 
+    def known(self, cond):
+        """True / False when the current path condition decides `cond`, None otherwise. Never forks."""
+        c = simp(cond)
+        if z3.is_true(c):
+            return True
+        if z3.is_false(c):
+            return False
+        pc = list(self.run.pc) + list(self.run.ctx)
+        if not feasible(pc, z3.Not(c)):
+            return True
+        if not feasible(pc, c):
+            return False
+        return None
+
     def assume(self, cond):
         c = simp(cond)
         if z3.is_true(c):
@@ -249,7 +263,16 @@ class Exec(ExprMixin, CallMixin):
     def st_Assign(self, st, fr):
         v = self.eval(st.value, fr)
         for tgt in st.targets:
-            self.assign_target(tgt, v, fr)
+            self.assign_target(tgt, self._adapt_local(tgt, v, fr), fr)
+
+    def _adapt_local(self, tgt, v, fr):
+        """A dict display bound to a local that the contract types as Dict is represented as a symbolic dict
+        (so that it can be indexed with non-constant keys)."""
+        c = getattr(fr, "contract", None)
+        if c is not None and isinstance(tgt, ast.Name) and c.types.get(tgt.id) is Dict and isinstance(v, VRec) and v.ty.as_dict \
+                and not fr.is_spec:
+            return self.adapt_arg(v, Dict)
+        return v
 
     def st_AnnAssign(self, st, fr):
         if st.value is None:
@@ -257,7 +280,7 @@ class Exec(ExprMixin, CallMixin):
         v = self.eval(st.value, fr)
         if isinstance(v, VList) and v.items == [] and v.elem is None:
             v.elem = self.elem_type_from_annotation(st.annotation, fr)
-        self.assign_target(st.target, v, fr)
+        self.assign_target(st.target, self._adapt_local(st.target, v, fr), fr)
 
     def st_AugAssign(self, st, fr):
         cur = self.eval(_as_load(st.target), fr)
@@ -390,7 +413,21 @@ class Exec(ExprMixin, CallMixin):
         raise Unsupported("loop not found")
 
     def st_For(self, st, fr):
-        it = self.eval(st.iter, fr)
+        enum_start = None
+        ie = st.iter
+        if (isinstance(ie, ast.Call) and isinstance(ie.func, ast.Name) and ie.func.id == "enumerate"
+                and fr.lookup("enumerate") is None and 1 <= len(ie.args) <= 2 and all(k.arg == "start" for k in ie.keywords)):
+            inner = self.eval(ie.args[0], fr)
+            if isinstance(inner, VList) and self.concrete_items(inner) is None:
+                # `for i, x in enumerate(seq, start)` over a z3 sequence: i = start + (number of elements consumed)
+                sv = self.eval(ie.args[1], fr) if len(ie.args) == 2 else (self.eval(ie.keywords[0].value, fr) if ie.keywords else lift(0))
+                if not isinstance(sv, (VInt, VBool)):
+                    raise Unsupported("enumerate() with a non-integer start")
+                from .ty import coerce as _coerce
+                enum_start = _coerce(sv, Int).t
+                it = inner
+        if enum_start is None:
+            it = self.eval(st.iter, fr)
         items = self.concrete_items(it)
         if items is not None:
             broke = False
@@ -406,6 +443,9 @@ class Exec(ExprMixin, CallMixin):
             if not broke:
                 self.exec_block(st.orelse, fr)
             return
+        from .ty import VRange
+        if isinstance(it, VRange):
+            return self._for_range(st, fr, it)
         if not isinstance(it, VList):
             raise Unsupported(f"for-loop over {it} at line {st.lineno}")
         k = self._loop_ordinal(st, fr)
@@ -436,7 +476,12 @@ class Exec(ExprMixin, CallMixin):
         self.assume(rest == z3.Concat(z3.Unit(h), t))
         hv = elem.wrap(h)
         self.on_element(it, hv)
-        self.assign_target(st.target, hv, fr)
+        if enum_start is not None:
+            # the unprocessed part is a suffix of the whole sequence: its first element has index len(whole)-len(rest)
+            self.assume(z3.Length(rest) <= z3.Length(whole))
+            self.assign_target(st.target, VTuple([VInt(enum_start + z3.Length(whole) - z3.Length(rest)), hv]), fr)
+        else:
+            self.assign_target(st.target, hv, fr)
         try:
             self.exec_block(st.body, fr)
         except ContinueSig:
@@ -445,6 +490,45 @@ class Exec(ExprMixin, CallMixin):
             return
         extra = {"done": VList(elem, seq=z3.Concat(done, z3.Unit(h))), "rest": VList(elem, seq=t)}
         self._check_inv(contract, inv, fr, extra, "loop%d.preserve" % k, st.lineno)
+        raise Infeasible()
+
+    def _for_range(self, st, fr, rng):
+        """`for i in range(lo, hi)` with symbolic bounds. The invariant inv<k> may name the loop variable: there it
+        denotes the index of the NEXT iteration (lo at entry, max(lo, hi) at exit). Inside the body the variable is
+        the current index; after the loop it holds the last index (or its old value if no iteration ran)."""
+        if not isinstance(st.target, ast.Name):
+            raise Unsupported(f"for-loop over symbolic range with a non-name target at line {st.lineno}")
+        name = st.target.id
+        k = self._loop_ordinal(st, fr)
+        contract = fr.contract
+        inv = contract.methods.get(f"inv{k}") if contract else None
+        if inv is None:
+            raise Unsupported(f"for loop #{k} at line {st.lineno} of {self.cur_func} has no invariant (inv{k})")
+        lo, hi = rng.lo, rng.hi
+        end = z3.If(hi > lo, hi, lo)
+        prev = fr.lookup(name)
+        self._check_inv(contract, inv, fr, {name: VInt(lo)}, "loop%d.init" % k, st.lineno)
+        self._havoc_assigned(st, fr, contract)
+        i = z3.Const(fresh_name(name), z3.IntSort())
+        self.assume(z3.And(lo <= i, i <= end))
+        self._assume_spec(contract, inv, fr, {name: VInt(i)})
+        if not self.decide(i < hi):
+            self.assume(i == end)
+            last = z3.Const(fresh_name(name + ".last"), z3.IntSort())
+            self.assume(z3.Implies(hi > lo, last == hi - 1))
+            if isinstance(prev, VInt):
+                self.assume(z3.Implies(hi <= lo, last == prev.t))
+            fr.assign(name, VInt(last))
+            self.exec_block(st.orelse, fr)
+            return
+        fr.assign(name, VInt(i))
+        try:
+            self.exec_block(st.body, fr)
+        except ContinueSig:
+            pass
+        except BreakSig:
+            return
+        self._check_inv(contract, inv, fr, {name: VInt(i + 1)}, "loop%d.preserve" % k, st.lineno)
         raise Infeasible()
 
     def on_element(self, lst, hv):
@@ -501,10 +585,17 @@ class Exec(ExprMixin, CallMixin):
     def _havoc_assigned(self, st, fr, contract):
         """Forget everything the loop may change: assigned names, mutated containers, callee frames."""
         names, attrs, mutated = self._assigned_names(st)
+        from . import effects
+        effects.havoc_declared_at_loop(self)  # ghost output streams the function under proof may write to
         body_only = ast.Module(body=st.body, type_ignores=[])
         # arguments of calls whose contracts declare a frame, or that are inlined (conservative: havoc mutable args)
         for n in ast.walk(st):
             if isinstance(n, ast.Call):
+                if isinstance(n.func, ast.Name) and n.func.id in _PURE_BUILTINS and fr.lookup(n.func.id) is None \
+                        and fr.module is not None and n.func.id not in getattr(fr.module, "functions", {}):
+                    continue  # len(xs), hash(s), range(n)...: builtins that never mutate their arguments
+                if isinstance(n.func, ast.Attribute) and isinstance(n.func.value, ast.Constant) and isinstance(n.func.value.value, str):
+                    continue  # "sep".join(xs) and other methods of a str literal
                 for a in list(n.args) + [k.value for k in n.keywords]:
                     if isinstance(a, (ast.Name, ast.Attribute)):
                         mutated.add(ast.unparse(a))
@@ -529,6 +620,8 @@ class Exec(ExprMixin, CallMixin):
                 cur = self.eval(ast.parse(path, mode="eval").body, fr)
             except (Unsupported, RaiseSig, Infeasible):
                 continue
+            if isinstance(cur, VList) and cur.elem is None and isinstance(ltypes.get(path), SeqOf):
+                cur.elem = ltypes[path].elem  # `xs = []` before the loop: element type from the contract's types
             self.havoc_value(cur, path)
 
     def havoc_value(self, v, base="havoc", depth=0):
@@ -556,6 +649,9 @@ class Exec(ExprMixin, CallMixin):
                 args[n] = extra[n]
             elif n == "self" and fr.lookup("self") is None:
                 args[n] = VNone()
+            elif n in ("stdout", "stderr") and fr.lookup(n) is None:
+                from . import effects  # ghost output streams (pyvc/effects.py)
+                args[n] = effects.current(self, n)
             else:
                 v = fr.lookup(n)
                 if v is None:
@@ -637,6 +733,11 @@ class Exec(ExprMixin, CallMixin):
             self.safety(z3.Length(v.seq) == n, "unpack length", lineno)
             return [v.elem.wrap(v.seq[i]) for i in range(n)]
         raise Unsupported(f"cannot unpack {v} into {n} targets")
+
+
+# builtins that never mutate their arguments (used by the loop-havoc over-approximation)
+_PURE_BUILTINS = frozenset(("len", "hash", "range", "str", "int", "bool", "isinstance", "abs", "repr", "type", "id",
+                            "hasattr"))
 
 
 def _as_load(t):
